@@ -184,7 +184,7 @@ func runC18(c *core.Ctx) {
 func runR183(c *core.Ctx) {
 	c.Rule("R18.3", "the bucket index computed for an observation is provably below the number of buckets on every return path (an index one past the end panics in the observer, loses the observation and leaves the histogram lock held)", 1)
 	n, ok := namedConst(c, "metrics", "numAtlasBuckets")
-	fn := c.P.Func("metrics", "getBucket")
+	fn := findFunc(c, "metrics", "getBucket", roleBucketFn)
 	key := "metrics.getBucket#index-in-range"
 	if !ok || fn == nil {
 		c.Undecided("R18.3", key, "-", "bucket function or bucket count not found")
